@@ -19,6 +19,8 @@ from prov.constants import PROV_BASE_CLS  # noqa: E402
 ALL_PROV_CLASS_NAMES = {k.uri for k in PROV_BASE_CLS}
 import re  # noqa: E402
 
+from ..refmodel import FORMAL_URIS as ALL_FORMAL_URIS  # noqa: E402
+
 TURTLE_LOCAL = re.compile(r"^[A-Za-z0-9_][A-Za-z0-9_.\-]*$")
 BINARY_ONLY = {"Attribution", "Communication", "Delegation", "Influence", "Specialization",
                "Alternate", "Membership"}
@@ -75,6 +77,10 @@ def rdf_ineligible(d):
             extras = [(a, v) for a, v in attrs if a.uri not in fu]
             formals = {a.uri: v for a, v in attrs if a.uri in fu}
             for a, v in attrs:
+                if a.uri in ALL_FORMAL_URIS and a.uri not in fu:
+                    # e.g. prov:entity on a start: PROV-O already uses that predicate for the
+                    # start's trigger, so the attribute cannot be told apart from an argument
+                    return "prov-formal-attribute-foreign-to-the-record-kind"
                 if not name_ok(a):
                     return "name-not-under-document-prefix"
                 if isinstance(v, QualifiedName):
